@@ -66,7 +66,7 @@ CHECKS = {
             'noisy or float32 file-loaded content: after each step data == before + returned exactly in the frame dtype, pixels outside the '
             'range are bit-identical, the bounded result equals the unbounded one on the inside columns, and axes, noise estimates, metadata '
             'and random state are unchanged; a permuted order must give the same final data.',
-            'columns within half a channel of a range end may be included or not; derived tolerance only where the sub-grid origin differs (integrate_f_profile), exact otherwise',
+            'columns within half a channel of a range end may be included or not; derived tolerance throughout the bounded-vs-unbounded comparison (numpy transcendental kernels are not bit-reproducible across array lengths)',
             'DESIGN.md 3/C06'),
     'C13': ('exploration',
             'differential testing: add_constant_signal vs add_signal on a twin frame over generated start/drift/width/profile/smearing; mirror metamorphic relation',
